@@ -181,7 +181,7 @@ func (r *vC04Run) proj(id string, rank map[string]int) []int {
 		}
 	}
 	d, ok := rank[id[idx+1:]]
-	if !ok || g < 1 || g > 12 || d > 12 {
+	if !ok || g < 1 || g > 6 || d > 12 {
 		return []int{-1, -1}
 	}
 	return []int{g, d}
